@@ -8,8 +8,8 @@ from typing import Dict, List, Optional, Tuple, Any
 VERIF = os.path.dirname(os.path.dirname(os.path.abspath(__file__)))
 REPO = os.environ.get('VERIF_REPO', '/repo')
 CACHE = os.environ.get('VERIF_CACHE', os.path.join(VERIF, '.cache'))
-EVIDENCE_DIR = os.path.join(VERIF, 'evidence')
-REPLAY_DIR = os.path.join(VERIF, 'replays')
+EVIDENCE_DIR = os.environ.get('VERIF_EVIDENCE_DIR') or os.path.join(VERIF, 'evidence')      # override: trial runs against a mutant copy (VERIF_REPO) must not overwrite the committed evidence
+REPLAY_DIR = os.environ.get('VERIF_REPLAY_DIR') or os.path.join(VERIF, 'replays')
 SEED = int(os.environ.get('VERIF_SEED', '0') or 0)
 NIGHTLY = os.environ.get('VERIF_NIGHTLY', 'nightly')
 
